@@ -245,8 +245,15 @@ def part_b(ctx, tmp):
         widths = None
         if kind != 'native' and rng.random() < 0.5:
             widths = np.array([rng.uniform(10, 80) for _ in range(nb)])
+        given_t, given_w = tgt, widths
+        if kind == 'flux' and rng.random() < 0.5:
+            # the flux binner accepts its bins in any order (it sorts centres and widths together)
+            perm = list(range(nb))
+            rng.shuffle(perm)
+            given_t = tgt[perm]
+            given_w = None if widths is None else widths[perm]
         binner = dict(native=lambda: NativeBinner(), simple=lambda: SimpleBinner(tgt, widths),
-                      flux=lambda: FluxBinner(tgt, widths))[kind]()
+                      flux=lambda: FluxBinner(given_t, given_w))[kind]()
         rp = dict(part='spectrum dictionary', binner=kind, output_size=int(size), native_wngrid=wn, target=tgt, widths=widths)
         with np.errstate(all='ignore'):
             out = binner.generate_spectrum_output((wn, flux, tau, None), output_size=size)
@@ -267,6 +274,10 @@ def part_b(ctx, tmp):
                 bad = 'binned_wlwidth is not binned_wnwidth converted at the bin centre'
             elif len(out['binned_spectrum']) != len(out['binned_wngrid']):
                 bad = 'binned_spectrum and binned_wngrid have different lengths'
+            elif not np.array_equal(np.asarray(out['binned_wngrid']), tgt) or \
+                    (widths is not None and not np.array_equal(np.asarray(out['binned_wnwidth']), widths)):
+                bad = 'stored bins are not the given (centre, width) pairs in ascending order: %r %r, given %r %r' % (
+                    out['binned_wngrid'], out['binned_wnwidth'], given_t, given_w)
         if ('native_tau' in out) != (int(size) > 3) or (kind != 'native' and ('binned_tau' in out) != (int(size) > 1)):
             bad = 'optical depths do not follow the output size %d: keys %r' % (int(size), sorted(out))
         if bad:
